@@ -405,17 +405,42 @@ def totals_gate(ctx, r, prefix="totals"):
             entry = q.loop_entry(lr, loops[0][0], loops[0][1])
             wo = lr.reachable(entry, removed=[gb])
             ok_gate = not any(x in wo for x in loops[0][2])       # every transaction of the batch passes the gate
-    r.check(ok_gate, prefix + "/gate", "load_relevant_coins rejects every batch member whose output totals do not fit in u128",
-            "no gate in load_relevant_coins rejects transactions whose per-denomination output totals (plus fee) overflow u128: 255 MEL outputs of 2^120 and a fee of 2^120 "
-            "make total_outputs() panic (overflow checks) or wrap to 0 and balance against a zero-valued input (no overflow checks)", "%s:%s" % (lr.file, lr.line))
+    fit_ = prog.body("melstf::state::applytx::output_totals_fit")
+    indirect = [bi for bi, t in lr.calls() if t.get("fn") is None]
+    if not gates and fit_ is not None and indirect:
+        # the gate function still exists and load_relevant_coins makes calls through function pointers (a table of per-transaction checks): whether the gate is
+        # among them is not read
+        r.undecided(prefix + "/gate", "load_relevant_coins does not call output_totals_fit by name but calls through %d function pointer(s): not decided" % len(indirect), "%s:%s" % (lr.file, lr.line))
+    else:
+      r.check(ok_gate, prefix + "/gate", "load_relevant_coins rejects every batch member whose output totals do not fit in u128",
+              "no gate in load_relevant_coins rejects transactions whose per-denomination output totals (plus fee) overflow u128: 255 MEL outputs of 2^120 and a fee of 2^120 "
+              "make total_outputs() panic (overflow checks) or wrap to 0 and balance against a zero-valued input (no overflow checks)", "%s:%s" % (lr.file, lr.line))
     fit = prog.body("melstf::state::applytx::output_totals_fit")
     if fit is not None:
-        adds = [e for bi, e in q.all_call_exprs(fit) if e[0] == "call" and e[1].split("::")[-1] == "checked_add"]
-        plain = [t for bi, t in fit.iter_terms("assert") if t["msg"].startswith("Overflow(Add")]
-        r.check(len(adds) >= 2 and not plain, prefix + "/gate/checked", "the gate sums with checked_add (outputs per denomination, then the fee)", "output_totals_fit does not sum with checked_add (%d checked, %d plain additions)" % (len(adds), len(plain)),
-                "%s:%s" % (fit.file, fit.line))
+        nest = prog.all_nested(fit)
+        adds = [e for n_ in nest for bi, e in q.all_call_exprs(n_) if e[0] == "call" and e[1].split("::")[-1] == "checked_add"]
+        plain = [t for n_ in nest for bi, t in n_.iter_terms("assert") if t["msg"].startswith("Overflow(Add")]
+        loose = [e for n_ in nest for bi, e in q.all_call_exprs(n_) if e[0] == "call" and e[1].split("::")[-1] in ("wrapping_add", "saturating_add", "overflowing_add")]
+        # positive derivations: a plain / wrapping / saturating addition inside the gate (its verdict then says nothing about total_outputs' plain `+`); fewer
+        # checked additions than the two kinds of term (outputs, fee) with nothing else adding — otherwise a shape that is not read (adapters, folds): undecided
+        if plain or loose:
+            r.violation(prefix + "/gate/checked", "output_totals_fit adds with %d plain and %d wrapping/saturating additions: its verdict does not tell whether total_outputs() overflows" % (len(plain), len(loose)), "%s:%s" % (fit.file, fit.line))
+        elif len(adds) >= 2:
+            r.ok(prefix + "/gate/checked", "the gate sums with checked_add (outputs per denomination, then the fee)", "%s:%s" % (fit.file, fit.line))
+        elif len(nest) > 1 or any(t.get("fn") is None for n_ in nest for bi, t in n_.calls()):
+            r.undecided(prefix + "/gate/checked", "output_totals_fit has %d checked additions in a shape that is not read (closures / adapters)" % len(adds), "%s:%s" % (fit.file, fit.line))
+        else:
+            r.violation(prefix + "/gate/checked", "output_totals_fit does not sum with checked_add (%d checked, %d plain additions)" % (len(adds), len(plain)), "%s:%s" % (fit.file, fit.line))
         s_ = " ".join(sig(e) for e in adds)
-        r.check(".fee" in s_ and ".value" in s_, prefix + "/gate/terms", "it accounts for every output value and the fee", "output_totals_fit sums %s" % s_[:200], "%s:%s" % (fit.file, fit.line))
+        reads = " ".join(sig(e) for n_ in nest for bi, e in q.all_call_exprs(n_)) + " " + " ".join(sig(x[2]) for n_ in nest for x in q.ret_assignments(n_))
+        if ".fee" in s_ and ".value" in s_:
+            r.ok(prefix + "/gate/terms", "it accounts for every output value and the fee", "%s:%s" % (fit.file, fit.line))
+        elif ".fee" not in reads and len(nest) == 1:
+            r.violation(prefix + "/gate/terms", "output_totals_fit never reads the fee (it sums %s): total_outputs() adds the fee to the MEL total" % s_[:160], "%s:%s" % (fit.file, fit.line))
+        elif ".value" not in reads and len(nest) == 1:
+            r.violation(prefix + "/gate/terms", "output_totals_fit never reads an output value (it sums %s)" % s_[:160], "%s:%s" % (fit.file, fit.line))
+        else:
+            r.undecided(prefix + "/gate/terms", "which terms output_totals_fit adds is not read (it sums %s)" % s_[:160], "%s:%s" % (fit.file, fit.line))
         # the verdict of the gate: any of its sums overflowing ⇒ false, none overflowing ⇒ true (decided by forcing the presence tests of every checked_add)
         absent, present = q.presence_tests(fit, lambda sx: "checked_add" in sx)
         if absent:
@@ -427,7 +452,13 @@ def totals_gate(ctx, r, prefix="totals"):
             else:
                 # not one constant: some path answers true although every sum was taken to overflow — decided if such a path returns the literal `true`
                 _v, f0 = q.ret_value_under(fit, absent)
-                lit_true = [x for x in q.ret_assignments(fit) if x[0] in f0.reach and q.const_val(x[2]) in (1, True)]
+                # ... on a path that has actually made (and failed) one of the sums: `true` reached by making no sum at all — the zero-iteration exit of a loop
+                # over outputs-then-fee — is not a wrong verdict
+                add_blocks = [bi for bi, e in q.all_call_exprs(fit) if e[0] == "call" and e[1].split("::")[-1] == "checked_add"]
+                after_add = set()
+                for ab in add_blocks:
+                    after_add |= set(f0.reach_from(ab))
+                lit_true = [x for x in q.ret_assignments(fit) if x[0] in f0.reach and x[0] in after_add and q.const_val(x[2]) in (1, True)]
                 if lit_true:
                     r.violation(prefix + "/gate/overflow=>reject", "with every sum overflowing the gate can still answer true: such a transaction goes on to total_outputs()", fit.where(lit_true[0][0]))
                 else:
